@@ -285,6 +285,53 @@ func runRealInformers(o checks.Opts) *report.Report {
 			}
 		}
 	}
+	// (5) calls made with a context that is already done (a reconcile cancelled at shutdown, a
+	// deadline that has passed): whether such a call succeeds is its own business, but once a
+	// retried Free has succeeded the informer has to be gone like after any other Free
+	if len(rep.Violations) == 0 {
+		if err := c.Watch(context.Background(), a, &corev1.ConfigMap{}); err != nil {
+			bad("rewatch-failed", "Watch after Free: %v", err)
+		} else {
+			api.add("before-cancelled-free")
+			if !eventually(30*time.Second, has("before-cancelled-free")) {
+				bad("rewatched-informer-delivers-nothing", "after watching again a new object is not delivered to the registered handler within 30 s")
+			}
+			doneCtx, cancelDone := context.WithCancel(context.Background())
+			cancelDone()
+			err1 := c.Free(doneCtx, a)
+			step()
+			var err2 error
+			for i := 0; i < 3; i++ {
+				if err2 = c.Free(context.Background(), a); err2 == nil {
+					break
+				}
+			}
+			step()
+			if err2 != nil {
+				bad("free-failed", "Free retried with a live context after a Free with a done context (%v): %v", err1, err2)
+			} else {
+				if !eventually(30*time.Second, func() bool { return api.openWatches() == 0 }) {
+					bad("informer-not-stopped", "the only owner was freed with a context that was already done (answer: %v) and then again with a live one (answer: nil), but the API server still has %d open watch connection(s) after 30 s", err1, api.openWatches())
+				}
+				if err := c.Get(context.Background(), client.ObjectKey{Name: "late", Namespace: "test"}, &corev1.ConfigMap{}); err == nil {
+					bad("read-of-unwatched-kind-succeeds", "Get on a kind nobody watches succeeded (after a Free with a done context)")
+				}
+			}
+			// a Watch whose deadline has already passed cannot start an informer that stays behind
+			pastCtx, cancelPast := context.WithDeadline(context.Background(), time.Now().Add(-time.Second))
+			errW := c.Watch(pastCtx, b, &corev1.ConfigMap{})
+			cancelPast()
+			step()
+			if errW != nil {
+				// the failed Watch must not leave an informer running for a kind nobody watches
+				if len(c.OwnersForGKV(cmGVK)) == 0 && !eventually(30*time.Second, func() bool { return api.openWatches() == 0 }) {
+					bad("informer-left-behind-by-failed-watch", "Watch with an expired deadline failed (%v) and nobody watches ConfigMaps, but the API server still has %d open watch connection(s) after 30 s", errW, api.openWatches())
+				}
+			}
+			_ = c.Free(context.Background(), b)
+			step()
+		}
+	}
 	rep.Outcomes[fmt.Sprintf("violations=%d", len(rep.Violations))]++
 	rep.States, rep.Transitions = rep.Executions, rep.Executions
 	return rep
